@@ -15,7 +15,7 @@ Go code is compared with the reference directly by the stream `shapespec.apply` 
 The first group of theorems states, clause by clause, what the REFERENCE does (they make the
 property's sentences precise); `C06_engine_eq_spec_*` states that the engine computes the same.
 -/
-import SfntV.Proofs.ShapeSpecSimple
+import SfntV.Proofs.ShapeSpecCtx
 import SfntV.Proofs.ShapeSpecSem
 
 namespace SfntV.Props.C06
@@ -126,6 +126,23 @@ theorem C06_engine_eq_spec_simple (B : Nat) (ll : LookupList) (gd : Gdef) (looku
     Shape.apply B ll gd lookups [] seq = .ok ⟨r, []⟩ :=
   C06.engine_eq_spec_simple B ll gd lookups seq r hsimple h
 
+/-- **The engine computes what the reference computes — contextual and chained contextual
+lookups (formats 1, 2, 3) whose nested lookups are pointwise.**  `C06.nestedPointwiseLL ll` says:
+every lookup that a nested action of any contextual subtable of `ll` names consists of
+subtables that rewrite only the glyph they are applied to (single and alternate substitution
+GSUB 1.1 1.2 3.1, reverse chaining 8.1, single adjustment GPOS 1.1 1.2, mark attachment 4.1 6.1)
+— a strict subclass of the length-preserving nested lookups.  The top-level lookups may mix
+contextual subtables with any non-contextual ones (ligatures and multiple substitutions
+included).  For every such lookup list, all GDEF data, flags, lookup orders and sequences: if the
+reference is defined with result `r`, the engine on a fresh context returns exactly `r`, without
+panic, within fuel, stack empty.  The proof is the simulation of DESIGN §8: the engine's stack
+entry (positions, remaining actions, end position) against the reference's tags on the glyphs. -/
+theorem C06_engine_eq_spec_ctx_partial (B : Nat) (ll : LookupList) (gd : Gdef) (lookups : List Nat)
+    (seq r : List Glyph) (hnested : C06.nestedPointwiseLL ll = true)
+    (h : Spec.Shape.shape B ll gd lookups seq = .ok r) :
+    Shape.apply B ll gd lookups [] seq = .ok ⟨r, []⟩ :=
+  C06.engine_eq_spec_ctx B ll gd lookups seq r hnested h
+
 /-- The full statement (NOT proved for contextual lookups with arbitrary nested lookups; see cfg
 `partial`): the engine agrees with the reference on every lookup list wherever the reference
 is defined. -/
@@ -162,6 +179,13 @@ example : Spec.Shape.shape 64
     [⟨0, 0, [.ctx1 [(1, 0)] [[⟨[], [1], [], [⟨0, 1⟩, ⟨1, 2⟩]⟩]]]⟩,
      ⟨0, 0, [.gsub21 [(1, 0)] [[1, 1]]]⟩, ⟨0, 0, [.gsub12 [(1, 0)] [3]]⟩] {} [0] (exSeq [1, 1])
     = .ok [⟨1, [97], 0, 0, 0⟩, ⟨3, [], 0, 0, 0⟩, ⟨1, [98], 0, 0, 0⟩] := by rfl
+
+/-- the engine gives the same for a contextual lookup with a pointwise nested lookup: `1 1 → 1@1`,
+lookup 1 `1 → 3`, ignoring marks, on `1 10 1 1` (instance of `C06_engine_eq_spec_ctx_partial`) -/
+example : Shape.apply 64
+    [⟨8, 0, [.ctx1 [(1, 0)] [[⟨[], [1], [], [⟨1, 1⟩]⟩]]]⟩, ⟨0, 0, [.gsub12 [(1, 0)] [3]]⟩] exGdef [0] [] (exSeq [1, 10, 1, 1])
+    = .ok ⟨[⟨1, [97], 0, 0, 0⟩, ⟨10, [98], 0, 0, 0⟩, ⟨3, [99], 0, 0, 0⟩, ⟨1, [100], 0, 0, 0⟩], []⟩ :=
+  C06_engine_eq_spec_ctx_partial 64 _ _ _ _ _ (by decide) (by rfl)
 
 /-- mark-to-base: base 1 (advance 500, anchor (300, 700)), mark 10 (anchor (20, 10)) -/
 example : Spec.Shape.shape 64 [⟨0, 0, [.gpos41 [(10, 0)] [(1, 0)] [⟨0, 20, 10⟩] [[⟨300, 700⟩]]]⟩] exGdef [0]
